@@ -50,15 +50,66 @@ func ruleS17_1(c *Ctx, id string) {
 		nH++
 		R.Analysed[FuncName(h)] = true
 		name := "simple." + h.Name()
-		acq := P.CallsIn(h, funcIs(V.LockAcquire))
-		rel := P.CallsIn(h, funcIs(V.LockRelease))
+		// the handler's own code: its body and the function literals written inside it
+		fam := lexicalFamily(h)
+		var acq, rel []ssa.Instruction
+		for _, f := range fam {
+			acq = append(acq, P.CallsIn(f, funcIs(V.LockAcquire))...)
+			rel = append(rel, P.CallsIn(f, funcIs(V.LockRelease))...)
+		}
 		if len(acq) != 1 || len(rel) != 1 {
 			R.Fail(id, name+"|one Acquire/Release pair", P.Pos(h.Pos()), "the handler locks its inode exactly once", fmt.Sprintf("%d Acquire, %d Release calls: journal operations run without (or with an unbalanced) inode lock", len(acq), len(rel)))
 			continue
 		}
-		v := stripConv(argN(acq[0], 0))
-		R.Check(stripConv(argN(rel[0], 0)) == v, id, name+"|releases the lock it took", P.Pos(rel[0].Pos()), "Release is applied to the same inode number as Acquire", "same value", "another inode's lock is released; this one stays locked for ever")
-		R.Check(MustAfter(h, func(in ssa.Instruction) bool { return in == rel[0] }, nil)(acq[0]), id, name+"|Release on every path", P.Pos(acq[0].Pos()), "every path after Acquire reaches Release", "must-follow", "a path returns with the inode locked: the file is blocked for ever")
+		v := resolveCaptured(argN(acq[0], 0))
+		R.Check(resolveCaptured(argN(rel[0], 0)) == v, id, name+"|releases the lock it took", P.Pos(rel[0].Pos()), "Release is applied to the same inode number as Acquire", "same value", "another inode's lock is released; this one stays locked for ever")
+		// path by path (through the function literals the handler calls or hands down): the lock is released on
+		// every path, and the journal is touched only while it is held
+		followed := func(call *ssa.Call) bool {
+			if f, _ := closureCallee(call); f != nil {
+				return true
+			}
+			_, isP := call.Call.Value.(*ssa.Parameter)
+			return isP
+		}
+		touchesJ := func(in ssa.Instruction) bool {
+			for _, cal := range P.Callees(in) {
+				if reachesJ(cal) {
+					return true
+				}
+			}
+			return false
+		}
+		px := NewPX()
+		heldAtReturn, outside := "", map[ssa.Instruction]bool{}
+		px.OnCall = func(st *PXState, ci ssa.CallInstruction) {
+			call, ok := ci.(*ssa.Call)
+			if !ok {
+				return
+			}
+			switch call.Call.StaticCallee() {
+			case V.LockAcquire:
+				st.Flags["locked"] = true
+				return
+			case V.LockRelease:
+				st.Flags["locked"] = false
+				return
+			}
+			if !followed(call) && touchesJ(call) && !st.Flags["locked"] {
+				outside[call] = true
+			}
+		}
+		px.OnReturn = func(st *PXState, fr *pxFrame, r *ssa.Return) {
+			if st.Flags["locked"] {
+				heldAtReturn = P.Pos(r.Pos())
+			}
+		}
+		px.Run(h)
+		if px.Exceeded {
+			R.Undecided(id, name+"|Release on every path", P.Pos(acq[0].Pos()), "the paths of the handler can be enumerated", "path budget exceeded")
+			continue
+		}
+		R.Check(heldAtReturn == "", id, name+"|Release on every path", P.Pos(acq[0].Pos()), "every path after Acquire reaches Release", "no explored path returns with the lock held", "a path returns with the inode locked (return at "+heldAtReturn+"): the file is blocked for ever")
 		// v = fh2ino(args.<handle>)
 		cl, _ := v.(*ssa.Call)
 		fromArg := false
@@ -68,55 +119,54 @@ func ruleS17_1(c *Ctx, id string) {
 			}
 		}
 		R.Check(fromArg, id, name+"|locks the inode the handle names", P.Pos(acq[0].Pos()), "the locked number is fh2ino(<handle argument>)", "value identity", "the lock taken is not the lock of the file operated on")
-		// directly, or through a helper that turns validInum's answer into a status that is tested here
-		g := guardedByS(h, acq[0].Block(), v, func(subj ssa.Value) func(Cond) (bool, bool) {
-			want := stripConv(subj)
+		// directly, or through a helper that turns validInum's answer into a status that is tested here; the Acquire may
+		// sit in a local closure called after the test
+		hScopes := scopesOf(h)
+		asc := Scope{Fn: h, S: Subst{}}
+		for _, s2 := range hScopes {
+			if s2.Fn == acq[0].Parent() {
+				asc = s2
+			}
+		}
+		g := guardedUp(hScopes, asc, acq[0].Block(), func(sub Subst) func(Cond) (bool, bool) {
 			return func(cd Cond) (bool, bool) {
 				if cd.Op != token.ILLEGAL {
 					return false, false
 				}
 				vc, ok := cd.X.(*ssa.Call)
-				if ok && vc.Call.StaticCallee() == valid && stripConv(vc.Call.Args[0]) == want {
+				if ok && vc.Call.StaticCallee() == valid && resolveCaptured(sub.resolve(stripConv(vc.Call.Args[0]))) == v {
 					return true, true
 				}
 				return false, false
 			}
-		}, 0)
+		})
 		R.Check(g, id, name+"|validInum before locking", P.Pos(acq[0].Pos()), "Acquire is dominated by validInum(inum) == true", "guard dominates", "an out-of-range or reserved inode number reaches the inode table / another file's data block")
 		// journal operations only inside the critical section, on the same inum
-		before := MustBefore(h, func(in ssa.Instruction) bool { return in == acq[0] })
-		after := MustAfter(h, func(in ssa.Instruction) bool { return in == rel[0] }, nil)
 		nj := 0
-		for _, b := range h.Blocks {
-			for _, in := range b.Instrs {
-				if _, ok := in.(*ssa.Call); !ok {
-					continue
-				}
-				touches := false
-				for _, cal := range P.Callees(in) {
-					if reachesJ(cal) {
-						touches = true
+		for _, f := range fam {
+			for _, b := range f.Blocks {
+				for _, in := range b.Instrs {
+					call, ok := in.(*ssa.Call)
+					if !ok || followed(call) || !touchesJ(in) {
+						continue
 					}
-				}
-				if !touches {
-					continue
-				}
-				nj++
-				R.Check(before(in) && after(in), id, fmt.Sprintf("%s|journal op#%d inside the critical section", name, nj), P.Pos(in.Pos()), "the journal is read/written/committed only between Acquire and Release", "lock held on every path", "a read or write of the file happens outside its lock: concurrent requests interleave inside one operation")
-				// same inum is passed down
-				cc := callCommon(in)
-				usesInum := false
-				hasInumParam := false
-				for _, a := range cc.Args {
-					if bt := a.Type().String(); strings.HasSuffix(bt, "common.Inum") || strings.HasSuffix(bt, "uint64") {
-						hasInumParam = true
-						if stripConv(a) == v {
-							usesInum = true
+					nj++
+					R.Check(!outside[in], id, fmt.Sprintf("%s|journal op#%d inside the critical section", name, nj), P.Pos(in.Pos()), "the journal is read/written/committed only between Acquire and Release", "lock held on every explored path", "a read or write of the file happens outside its lock: concurrent requests interleave inside one operation")
+					// same inum is passed down
+					cc := callCommon(in)
+					usesInum := false
+					hasInumParam := false
+					for _, a := range cc.Args {
+						if bt := a.Type().String(); strings.HasSuffix(bt, "common.Inum") || strings.HasSuffix(bt, "uint64") {
+							hasInumParam = true
+							if resolveCaptured(a) == v {
+								usesInum = true
+							}
 						}
 					}
-				}
-				if hasInumParam {
-					R.Check(usesInum, id, fmt.Sprintf("%s|journal op#%d on the locked inode", name, nj), P.Pos(in.Pos()), "the helper operates on the inode number that is locked", "same value", "the operation runs on another inode than the one locked")
+					if hasInumParam {
+						R.Check(usesInum, id, fmt.Sprintf("%s|journal op#%d on the locked inode", name, nj), P.Pos(in.Pos()), "the helper operates on the inode number that is locked", "same value", "the operation runs on another inode than the one locked")
+					}
 				}
 			}
 		}
@@ -162,7 +212,13 @@ func ruleS17_1(c *Ctx, id string) {
 		for _, b := range fn.Blocks {
 			if r, ok := b.Instrs[len(b.Instrs)-1].(*ssa.Return); ok {
 				nRet++
-				if len(r.Results) != 1 || stripConv(r.Results[0]) != ssa.Value(call) {
+				carries := false
+				for _, res := range r.Results {
+					if stripConv(res) == ssa.Value(call) {
+						carries = true // (possibly next to other results, e.g. the log that was opened)
+					}
+				}
+				if !carries {
 					passThrough = false
 				}
 			}
@@ -264,8 +320,12 @@ func ruleS17_1(c *Ctx, id string) {
 				continue
 			}
 			isH := false
+			root := cs.Caller
+			for root.Parent() != nil {
+				root = root.Parent()
+			}
 			for _, h := range V.SimpleProcs {
-				if h == cs.Caller {
+				if h == root {
 					isH = true
 				}
 			}
@@ -865,4 +925,60 @@ func splitArgs(s string) []string {
 		}
 	}
 	return append(out, s[start:])
+}
+
+// lexicalFamily: fn and the function literals written inside it.
+func lexicalFamily(fn *ssa.Function) []*ssa.Function {
+	out := []*ssa.Function{fn}
+	for _, a := range fn.AnonFuncs {
+		out = append(out, lexicalFamily(a)...)
+	}
+	return out
+}
+
+// resolveCaptured: v with conversions and single-assignment cells removed,
+// and, inside a function literal, a captured variable replaced by the value
+// the enclosing function stored in it.
+func resolveCaptured(v ssa.Value) ssa.Value {
+	for i := 0; i < 6; i++ {
+		v = stripConv(v)
+		ld, ok := v.(*ssa.UnOp)
+		if !ok || ld.Op != token.MUL {
+			return v
+		}
+		fv, ok := ld.X.(*ssa.FreeVar)
+		if !ok {
+			return v
+		}
+		f := fv.Parent()
+		idx := -1
+		for j, q := range f.FreeVars {
+			if q == fv {
+				idx = j
+			}
+		}
+		par := f.Parent()
+		if idx < 0 || par == nil {
+			return v
+		}
+		var bind ssa.Value
+		for _, b := range par.Blocks {
+			for _, in := range b.Instrs {
+				if mc, ok := in.(*ssa.MakeClosure); ok && mc.Fn == ssa.Value(f) && idx < len(mc.Bindings) {
+					bind = mc.Bindings[idx]
+				}
+			}
+		}
+		switch x := bind.(type) {
+		case *ssa.Alloc:
+			st := singleStore(x)
+			if st == nil {
+				return v
+			}
+			v = st
+		default:
+			return v
+		}
+	}
+	return v
 }
